@@ -33,8 +33,10 @@ Definition step (batch : bool) (w : world) (rs : runspec) : robs * world :=
   let w := preinstall (r_pre rs) w in
   let w := install_stop (r_stop rs) w in
   let w := set_reentry [] (set_ran [] w) in
+  let w := reg_hooks 0 (r_hooks rs) w in
   let '(r, w') := run spinner_iterations batch (r_timeout rs) (r_fn rs) w in
-  (observe r w', w').
+  (* a refused run never starts the reactor: the harness takes its hooks back *)
+  (observe r w', set_r (set_hooks [] (w_r w')) w').
 
 Fixpoint steps (batch : bool) (w : world) (rss : list runspec) : obs :=
   match rss with
